@@ -255,6 +255,9 @@ def options(rng, name, d, n_classes=2):
   if name in ('MMC', 'MMC_Supervised'):
     o['init'] = ['identity', 'covariance', 'random'][int(rng.integers(3))]
     o['random_state'] = int(rng.integers(100))
+    if r() < 0.3:
+      o['diagonal'] = True                  # the diagonal variant (its own solver and its own components_ construction)
+      o['diagonal_c'] = float(2.0 ** int(rng.integers(-1, 3)))
   if name in ('ITML', 'ITML_Supervised'):
     o['gamma'] = float(2.0 ** int(rng.integers(-2, 3)))
   return o
@@ -315,6 +318,12 @@ def fitted(rng, name, d=None, opts=None, train=None, **kw):
     try:
       fit_quiet(est, *tr['fit_args'], **tr['fit_kwargs'])
       return est, tr, o
+    except ValueError:
+      # MMC's diagonal variant may legitimately raise ValueError instead of returning NaN (C14: a Newton step that clips
+      # every weight to zero): the bench then uses the full-matrix variant
+      if not o.get('diagonal'):
+        raise
+      o.pop('diagonal'); o.pop('diagonal_c', None)
     except RuntimeError:
       if not name.startswith('SDML'):
         raise
